@@ -1,4 +1,4 @@
 SPECIFICATION Spec
-CONSTANTS Variant="asis"
+CONSTANTS Variant="asis" Fixes={}
 INVARIANTS Polls Resume
 CHECK_DEADLOCK FALSE
